@@ -161,6 +161,9 @@ func init() {
 			in := e.input(concreteStr(e, args[0], "input name"), "int", BVSort(64))
 			lo, hi := args[1].(*Term), args[2].(*Term)
 			e.assume(e.tt.And(e.tt.SLe(lo, in.t), e.tt.SLe(in.t, hi)))
+			if lo.IsConst() && hi.IsConst() && lo.Int() > -(1<<53) && hi.Int() < 1<<53 {
+				e.smallInts[in.t] = true
+			}
 			return in.t
 		},
 		"vChoose": func(e *Engine, caller *frame, fn *ssa.Function, args []Value) Value {
@@ -560,6 +563,18 @@ func init() {
 			x, y := args[0].(*Term), args[1].(*Term)
 			if x.IsConst() && y.IsConst() {
 				return e.tt.F64Const(math.Mod(x.F64(), y.F64()))
+			}
+			// integer-valued operands float64(i), float64(j) with |i|,|j| < 2^53 (64-bit i, j: the harness bounds them):
+			// fmod is the truncated integer remainder, a zero result taking the sign of x; j == 0 gives NaN.
+			if x.Op == OSBVToFP && y.Op == OSBVToFP && x.Sort == F64Sort && y.Sort == F64Sort &&
+				x.Args[0].Sort.W == 64 && y.Args[0].Sort.W == 64 && e.smallInt(x.Args[0]) && e.smallInt(y.Args[0]) {
+				tt := e.tt
+				i, j := x.Args[0], y.Args[0]
+				zero := tt.IntConst(0, 64)
+				jj := tt.Ite(tt.Eq(j, zero), tt.IntConst(1, 64), j)
+				r := tt.SRem(i, jj)
+				val := tt.Ite(tt.And(tt.Eq(r, zero), tt.SLt(i, zero)), tt.F64Const(math.Copysign(0, -1)), tt.SBVToFP(r, F64Sort))
+				return tt.Ite(tt.Eq(j, zero), tt.F64Const(math.NaN()), val)
 			}
 			return e.tt.App("math.Mod", F64Sort, x, y)
 		},
